@@ -536,20 +536,22 @@ Section JDoc.
 
   Theorem to_json_shape : dmax < 2 ^ 64 ->
     exists l, to_json dmax fold prefix cells = jrender l /\ JWF l /\
-              jtoks_of l = toks (VObj (jentries (anseq 0 (S (N.to_nat dmax))))).
+              jtoks_of l = toks (VObj (jentries (anseq 0 (S (N.to_nat dmax))))) /\
+              exists l', l = l' ++ [JTk JRB].
   Proof.
     intros Hd.
     assert (Hds : Forall (fun d => d < 2 ^ 64) (anseq 0 (S (N.to_nat dmax)))).
     { apply Forall_forall. intros d Hin. apply nseq_in in Hin. lia. }
     destruct (groups_shape _ Hds) as [GC [E1 [E2 E3]]].
     exists ([JTk JLB; JWs [10]] ++ joinc true GC ++ [JWs [10]; JWs prefix; JTk JRB]).
-    split; [|split].
+    split; [|split; [|split]].
     - rewrite (to_json_groups fold prefix), E1, join_render, !jrender_app.
       cbn [jrender flat_map jcstr tstr app]. rewrite ?app_nil_r, <- ?app_assoc. reflexivity.
     - cbn [app]. constructor; [reflexivity|]. constructor; [repeat constructor|].
       apply joinc_wf; [exact E2|].
       constructor; [repeat constructor|]. constructor; [exact prefix_ws|]. constructor; [reflexivity|constructor].
     - cbn [app jtoks_of]. rewrite jtoks_of_app, joinc_toks_true, E3. cbn [jtoks_of toks]. reflexivity.
+    - exists ([JTk JLB; JWs [10]] ++ joinc true GC ++ [JWs [10]; JWs prefix]). rewrite <- !app_assoc. reflexivity.
   Qed.
 End JDoc.
 
@@ -744,28 +746,19 @@ Section JRoundTrip.
   Variable sortf : qty -> list aelem -> list aelem.
   Hypothesis sortf_perm : forall q l, Permutation (sortf q l) l.
 
-  Theorem json_roundtrip q w dmax fold prefix cells :
-    okw w -> allws prefix -> dmax <= max_depth q w ->
+  Lemma json_value_of_entries q w dmax cells :
+    okw w -> dmax <= max_depth q w ->
     Forall (elem_wf q dmax) (map of_cell cells) -> Disj q w (map of_cell cells) ->
-    from_json sortf q w (to_json dmax fold prefix cells)
-    = JRRes (AOk (dmax, sortf q (regroup dmax (map of_cell cells)))).
+    json_value_1d sortf q w (VObj (jentries dmax cells (anseq 0 (S (N.to_nat dmax)))))
+    = AOk (dmax, sortf q (regroup dmax (map of_cell cells))).
   Proof.
-    intros Hw Hpre Hd Hes Hdis.
+    intros Hw Hd Hes Hdis.
     pose proof (okw_le64 w Hw) as Hw64. pose proof (max_depth_255 q w Hw) as H255.
     set (es := map of_cell cells) in *.
-    assert (H64 : 2 ^ w <= 2 ^ 64) by (apply N.pow_le_mono_r; lia).
-    assert (Hsmall : Forall (fun c => snd c < 2 ^ 64) cells).
-    { apply Forall_forall. intros c Hc. rewrite Forall_forall in Hes.
-      destruct (Hes (of_cell c) (in_map _ _ _ Hc)) as [H1 H2]. cbn [of_cell adepth elem_ok] in H1, H2.
-      pose proof (pow_dim_le q w (fst c) Hw ltac:(lia)). lia. }
     assert (Hdm64 : dmax < 2 ^ 64).
     { eapply N.le_lt_trans; [exact Hd|]. eapply N.le_lt_trans; [exact H255|]. vm_compute. reflexivity. }
-    destruct (to_json_shape fold prefix Hpre dmax cells Hsmall Hdm64) as [l [E1 [E2 E3]]].
-    unfold from_json, jparse. rewrite E1, (jlex_render l E2 []). cbn [app]. rewrite E3.
     set (ents := jentries dmax cells (anseq 0 (S (N.to_nat dmax)))).
-    pose proof (max_nest_obj ents (jentries_arr dmax cells _)) as Hnest.
-    destruct (N.ltb_spec 100 (max_nest (toks (VObj ents)))) as [Hz|_]; [lia|].
-    rewrite prun_tree. unfold json_value_1d.
+    unfold json_value_1d.
     set (P := fun d => existsb (N.eqb d) (anseq 0 (S (N.to_nat dmax))) && present dmax cells d).
     set (nums := fun d => map snd (selc d cells)).
     set (ds := anseq 0 (S (N.to_nat (max_depth q w)))).
@@ -811,5 +804,34 @@ Section JRoundTrip.
     apply (Disj_perm q w es); [|exact Hdis].
     eapply Permutation_trans; [apply Permutation_sym, regroup_perm|apply Permutation_sym, sortf_perm].
     eapply Forall_impl; [|exact Hes]. intros x [Hx _]. exact Hx.
+  Qed.
+
+  Lemma cells_small q w dmax cells : okw w -> dmax <= max_depth q w ->
+    Forall (elem_wf q dmax) (map of_cell cells) -> Forall (fun c => snd c < 2 ^ 64) cells /\ dmax < 2 ^ 64.
+  Proof.
+    intros Hw Hd Hes.
+    pose proof (okw_le64 w Hw) as Hw64. pose proof (max_depth_255 q w Hw) as H255.
+    assert (H64 : 2 ^ w <= 2 ^ 64) by (apply N.pow_le_mono_r; lia).
+    split.
+    - apply Forall_forall. intros c Hc. rewrite Forall_forall in Hes.
+      destruct (Hes (of_cell c) (in_map _ _ _ Hc)) as [H1 H2]. cbn [of_cell adepth elem_ok] in H1, H2.
+      pose proof (pow_dim_le q w (fst c) Hw ltac:(lia)). lia.
+    - eapply N.le_lt_trans; [exact Hd|]. eapply N.le_lt_trans; [exact H255|]. vm_compute. reflexivity.
+  Qed.
+
+  Theorem json_roundtrip q w dmax fold prefix cells :
+    okw w -> allws prefix -> dmax <= max_depth q w ->
+    Forall (elem_wf q dmax) (map of_cell cells) -> Disj q w (map of_cell cells) ->
+    from_json sortf q w (to_json dmax fold prefix cells)
+    = JRRes (AOk (dmax, sortf q (regroup dmax (map of_cell cells)))).
+  Proof.
+    intros Hw Hpre Hd Hes Hdis.
+    destruct (cells_small q w dmax cells Hw Hd Hes) as [Hsmall Hdm64].
+    destruct (to_json_shape fold prefix Hpre dmax cells Hsmall Hdm64) as [l [E1 [E2 [E3 _]]]].
+    unfold from_json, jparse. rewrite E1, (jlex_render l E2 []). cbn [app]. rewrite E3.
+    set (ents := jentries dmax cells (anseq 0 (S (N.to_nat dmax)))).
+    pose proof (max_nest_obj ents (jentries_arr dmax cells _)) as Hnest.
+    destruct (N.ltb_spec 100 (max_nest (toks (VObj ents)))) as [Hz|_]; [lia|].
+    rewrite prun_tree. unfold ents. rewrite (json_value_of_entries q w dmax cells Hw Hd Hes Hdis). reflexivity.
   Qed.
 End JRoundTrip.
